@@ -8,6 +8,7 @@
   (`Proofs/C17NV.lean`): the rows (2,20,2,1), (4,40,4,2), (1,10,1,1/2) in two different orders.
 -/
 import Proofs.C17NV
+import TaurexModel.ObsHolder
 
 namespace Taurex.C17
 open Taurex.Observation Taurex.Binning List
@@ -149,5 +150,58 @@ theorem taurex_roundtrip (r : ORow ℝ) (h : 0 < r.wl) :
 
 example : widthConv (fromTaurex (⟨2500, 1, 1, 50⟩ : ORow ℝ)).wl (fromTaurex ⟨2500, 1, 1, 50⟩).bw = 50 :=
   (taurex_roundtrip ⟨2500, 1, 1, 50⟩ (by norm_num)).2.1
+
+/-- **holder_invariant** (the consumer of `create_binner`, `Optimizer.__init__ / set_observed`): whatever the history of
+    `set_observed` calls on one optimizer — observations replaced by others, `None` in between —, the binner it holds is
+    the binner created from the observation it currently holds. -/
+theorem holder_invariant (first : Option (Obs ℝ)) (ops : List (Option (Obs ℝ))) (o : Obs ℝ)
+    (h : ((Holder.new first).after ops).observed = some o) :
+    ((Holder.new first).after ops).binner = some o.createBinner := by
+  have step : ∀ (hd : Holder ℝ) (x : Option (Obs ℝ)),
+      (∀ o, hd.observed = some o → hd.binner = some o.createBinner) →
+      ∀ o, (hd.setObserved x).observed = some o → (hd.setObserved x).binner = some o.createBinner := by
+    intro hd x _ o ho
+    cases x with
+    | none => simp [Holder.setObserved] at ho
+    | some ob =>
+      simp only [Holder.setObserved, Option.some.injEq] at ho ⊢
+      rw [ho]
+  have all : ∀ (l : List (Option (Obs ℝ))) (hd : Holder ℝ),
+      (∀ o, hd.observed = some o → hd.binner = some o.createBinner) →
+      ∀ o, (hd.after l).observed = some o → (hd.after l).binner = some o.createBinner := by
+    intro l
+    induction l with
+    | nil => intro hd inv; exact inv
+    | cons x t ih =>
+      intro hd inv
+      exact ih (hd.setObserved x) (step hd x inv)
+  refine all ops (Holder.new first) ?_ o h
+  exact step _ first (by intro o ho; simp at ho)
+
+example : ((Holder.new (some (load true nvB))).after [none, some (load true nvA)]).binner =
+    some (load true nvA).createBinner :=
+  holder_invariant _ _ _ rfl
+
+/-- **holder_aligned**: after any history that ends with the observation `load fourCol rows`, the optimizer holds that
+    observation, and the forward model it bins (what `chisq_trans` compares with `observed.spectrum`) is, element by
+    element, the overlap mean over the bin (centre, width) of that observation's row `i` — never a bin of an observation
+    it held before. -/
+theorem holder_aligned (fourCol : Bool) (rows : List (ORow ℝ)) (hd : (rows.map ORow.wl).Nodup)
+    (hpos : ∀ r ∈ rows, 0 < r.wl) (hlen : 1 ≤ rows.length) (first : Option (Obs ℝ))
+    (ops : List (Option (Obs ℝ))) (native : List (Row ℝ)) :
+    ((Holder.new first).after (ops ++ [some (load fourCol rows)])).observed = some (load fourCol rows) ∧
+    ((Holder.new first).after (ops ++ [some (load fourCol rows)])).binModel native =
+      some ((List.zipWith (fun c w => ({ c := c, w := w } : TBin ℝ)) (load fourCol rows).wavenumberGrid
+        (load fourCol rows).binWidths).map (fun t => fluxBinVal Row.s (nativeBins false native) t.lo t.hi)) := by
+  have hobs : ((Holder.new first).after (ops ++ [some (load fourCol rows)])).observed = some (load fourCol rows) := by
+    simp [Holder.after, Holder.setObserved]
+  refine ⟨hobs, ?_⟩
+  unfold Holder.binModel
+  rw [holder_invariant first _ _ hobs, Option.map_some]
+  exact congrArg some (binner_aligned fourCol rows hd hpos hlen native).2.2
+
+example : ((Holder.new (some (load false nvB))).after ([none] ++ [some (load true nvA)])).observed =
+    some (load true nvA) :=
+  (holder_aligned true nvA nv_nodup nv_pos (by simp [nvA]) _ [none] []).1
 
 end Taurex.C17
